@@ -68,9 +68,12 @@ def c06 (c : Cfg) (items : List Val) (v : BatchView) : Bool :=
   && (v.events.getLast? == some .post)
   && (List.range c.n).all (fun i => (itemStarts v.events i).length == (itemDones v.events i).length)
 
+/-- nothing cancels the context: no explicit cancel event, no exec script that cancels, and — for nodes with a
+    custom fallback (the only ones whose fallback script is ever run) — no fallback script that cancels -/
 def cancelFree (c : Cfg) (v : BatchView) : Bool :=
   !(v.events.any (· == .cancel))
   && (List.range c.n).all (fun i => (List.range c.budget).all fun k => !(c.exec i k).cancels)
+  && (c.fb != .custom || (List.range c.n).all fun i => !(c.fbOut i).cancels)
 
 /-- **C07** (continue mode, no cancellation): every item exactly once with its own retry budget and fallback -/
 def c07 (c : Cfg) (v : BatchView) : Bool :=
